@@ -339,7 +339,11 @@ static int upipe_filter_blend_set_flow_def(struct upipe *upipe,
         upipe_throw_fatal(upipe, UBASE_ERR_ALLOC);
         return UBASE_ERR_ALLOC;
     }
-    UBASE_RETURN(uref_pic_set_progressive(flow_def_dup))
+    int err = uref_pic_set_progressive(flow_def_dup);
+    if (unlikely(!ubase_check(err))) {
+        uref_free(flow_def_dup);
+        return err;
+    }
     upipe_input(upipe, flow_def_dup, NULL);
     return UBASE_ERR_NONE;
 }
